@@ -529,3 +529,66 @@ def s_graph_signature_names(_ctx):
 
 SCENARIOS.append(Scenario("C13.export.graph_signature", s_graph_signature_names, [(REL, "_Exporter._translate_graph"), (REL, "_translate_signature"),
                                                                                   (REL, "_translate_signature.input_sig")], kind="evaluation"))
+
+
+def s_translate_loop(_ctx):
+    """_Exporter._translate_loop (real source) on an abstract Loop node: every value READ by the generated loop header
+    (trip count, initial condition, initial state) is printed the way any other use is printed — an inlined constant by
+    its literal (inline_const=True removes the Constant node, so its name is never assigned) — and a loop with both a
+    trip count and a live condition is printed in a form the converter accepts (`if <name>: break`)."""
+    from onnx import helper, TensorProto
+    from contracts.c17_opsets import Agg
+    from pyvc.core import Ctx
+    exp = _exp()
+    agg = Agg()
+    cl = "C13: 'under every export option (rename, use_operators, inline_const, skip_initializers)' — models 'with If and Loop bodies'"
+    n = 0
+    for trip_inlined in (False, True):
+        for init_inlined in (False, True):
+            for cond_live in (False, True):
+                n += 1
+                ctx = Ctx([], {"solver_s": 0.0, "queries": 0})
+                I = Interp(ctx)
+                ex = exp._Exporter(rename=False, use_operators=False, inline_const=True, skip_initializers=False)
+                ex._name_remappings.append({})
+                if trip_inlined:
+                    ex.constants["trip"] = "3"
+                if init_inlined:
+                    ex.constants["init"] = "[1.0, 2.0]"
+                body_nodes = [helper.make_node("Add", ["acc_in", "acc_in"], ["acc_out"])]
+                if cond_live:
+                    body_nodes += [helper.make_node("Not", ["cond_in"], ["cond_out"])]
+                else:
+                    body_nodes += [helper.make_node("Identity", ["cond_in"], ["cond_out"])]
+                body = helper.make_graph(body_nodes, "body", [helper.make_tensor_value_info("i", TensorProto.INT64, []), helper.make_tensor_value_info("cond_in", TensorProto.BOOL, []),
+                                                              helper.make_tensor_value_info("acc_in", TensorProto.FLOAT, [2])],
+                                         [helper.make_tensor_value_info("cond_out", TensorProto.BOOL, []), helper.make_tensor_value_info("acc_out", TensorProto.FLOAT, [2])])
+                node = helper.make_node("Loop", ["trip", "", "init"], ["final"], body=body)
+                I.models[exp._Exporter._translate_graph_body] = lambda interp, slf, g, opsets, indent=0: "        <body>"
+                case = f"trip count {'inlined' if trip_inlined else 'a value'}, initial state {'inlined' if init_inlined else 'a value'}, condition {'live' if cond_live else 'unused'}"
+                try:
+                    text = I.run_closure(I.closure_of(exp._Exporter._translate_loop), [ex, node, {"": 18}], {"indent": 1})
+                except Exception as e:  # noqa: BLE001
+                    agg.ob("C13.export.loop.header_reads_values_as_every_other_use_does", False, f"{case}: {type(e).__name__}: {e}", cl, case=case)
+                    continue
+                lines = text.splitlines()
+                header = [ln for ln in lines if ln.strip().startswith(("for ", "while "))]
+                reads_ok = True
+                why = []
+                if trip_inlined and not any("range(3)" in h for h in header):
+                    reads_ok = False
+                    why.append(f"the trip count was inlined as 3 but the header is {header}")
+                if init_inlined and not any(ln.strip() == "acc_in = [1.0, 2.0]" for ln in lines):
+                    reads_ok = False
+                    why.append("the initial state was inlined as [1.0, 2.0] but the loop reads the removed name: " + str([ln.strip() for ln in lines if ln.strip().startswith("acc_in =")]))
+                agg.ob("C13.export.loop.header_reads_values_as_every_other_use_does", reads_ok, f"{case}: " + "; ".join(why), cl, case=case)
+                if cond_live:
+                    brk = [i for i, ln in enumerate(lines) if ln.strip() == "break"]
+                    ok = bool(brk) and all(lines[i - 1].strip().startswith("if ") and " not " not in lines[i - 1] and lines[i - 1].strip()[3:-1].isidentifier() for i in brk)
+                    agg.ob("C13.export.loop.break_is_printed_in_the_form_the_converter_accepts", ok,
+                           f"{case}: emitted {[ln.strip() for ln in lines if 'break' in ln or ln.strip().startswith('if ')]} — the converter accepts only `if <name>: break`", cl, case="for-loop with a live condition")
+    return {"obligations": agg.obs, "paths": n, "covered": [f"loop_cases={n}"], "notes": [], "functions": []}
+
+
+SCENARIOS.append(Scenario("C13.export.loop", s_translate_loop, [(REL, "_Exporter._translate_loop"), (REL, "_Exporter._emit_assign"), (REL, "_Exporter._emit_assign.to_var"),
+                                                                (REL, "_Exporter._emit_assign.assign")], kind="evaluation"))
